@@ -27,6 +27,10 @@ MCFilters3 == {F_ab, F_ap, F_h}
 MCMatch3 == {<<t, f>> \in MCTopics3 \X MCFilters3 : MT!Matches(t, f)}
 
 MCNoWill == [n \in Nets |-> NOMSG]
+\* n1 registers a will on a/b (QoS as published, not retained); n3 a retained will
+MCWill1 == [n \in Nets |-> IF n = "n1" THEN Msg(901, T_ab, 0, FALSE, FALSE) ELSE IF n = "n3" THEN Msg(903, T_ab, 1, TRUE, FALSE) ELSE NOMSG]
+\* every net has its own client id (no takeover)
+MCNetCidOwn == [n \in Nets |-> CASE n = "n1" -> "c1" [] n = "n2" -> "c2" [] OTHER -> "c3"]
 \* net k belongs to client k (n1 -> c1, ...); n3 reuses c1 (reconnect / takeover)
 MCNetCid == [n \in Nets |-> CASE n = "n1" -> "c1" [] n = "n2" -> "c2" [] n = "n3" -> "c1" [] n = "n4" -> "c1" [] OTHER -> "c2"]
 MCAllClean == [n \in Nets |-> TRUE]
